@@ -78,7 +78,7 @@ func init() {
 	mutant("ring-never-evicts", "closed-ring-bounded", "serverConn.go", "			delete(closedStrms, closedRing[closedOldest])\n", "")
 	mutant("uppercase-check-dropped", "validators-dominate-accept", "serverConn.go", "		if hasUpperCase(k) {\n			return sc.rejectBlock(strm, fr, b, NewResetStreamError(ProtocolError, \"header field name contains uppercase characters\"))\n		}\n", "")
 	mutant("te-check-after-accept", "validators-dominate-accept", "serverConn.go", "		if bytes.Equal(k, StringTE) && !bytes.Equal(v, StringTrailers) {\n			return sc.rejectBlock(strm, fr, b, NewResetStreamError(ProtocolError, \"TE header field with a value other than trailers\"))\n		}\n", "")
-	mutant("client-status-range", "validators-dominate-accept", "conn.go", "if err != nil || n < 100 || n > 999 {", "if err != nil {")
+	mutant("client-status-range", "validators-dominate-accept", "conn.go", "if err != nil || len(hf.ValueBytes()) != 3 || n < 100 || n > 999 {", "if err != nil {")
 	mutant("content-length-mismatch-ignored", "validators-dominate-accept", "serverConn.go", "if strm.hasContentLength && strm.recvBody != strm.contentLength {", "if strm.hasContentLength && strm.recvBody > strm.contentLength {")
 	mutant("parse-error-skipped", "parse-error-rejects", "conn.go", "			n, err := parseUint(hf.ValueBytes())\n			if err != nil {\n				return c.skipFields(fr, b, errInvalidContentLength)\n			}\n", "			n, err := parseUint(hf.ValueBytes())\n			if err != nil {\n				n = 0\n			}\n")
 	mutant("parseuint-no-overflow-check", "decimal-accumulate-guarded", "strings.go", "		if n > (maxInt-int(c-'0'))/10 {\n			return 0, errInvalidUint\n		}\n", "")
@@ -409,7 +409,7 @@ func init() {
 	mutant("client-settings-ack-not-queued", "emitter-payloads", "conn.go", "	fr.SetBody(stRes)\n\n	c.writeOut(fr)\n\n	return nil\n}", "	fr.SetBody(stRes)\n\n	return nil\n}")
 	mutant("client-data-not-appended", "client-response-shape", "conn.go", "			res.AppendBody(data.Data())\n", "")
 	mutant("client-one-octet-data-dropped", "client-response-shape", "conn.go", "		if data.Len() != 0 {", "		if data.Len() > 1 {")
-	mutant("client-status-range-conjunction", "client-response-shape", "conn.go", "			if err != nil || n < 100 || n > 999 {", "			if err != nil || n < 100 && n > 999 {")
+	mutant("client-status-range-conjunction", "client-response-shape", "conn.go", "			if err != nil || len(hf.ValueBytes()) != 3 || n < 100 || n > 999 {", "			if err != nil || len(hf.ValueBytes()) != 3 || n < 100 && n > 999 {")
 	mutant("client-status-not-stored", "client-response-shape", "conn.go", "			res.SetStatusCode(n)\n", "")
 	mutant("client-regular-not-marked", "client-response-shape", "conn.go", "		c.block.regularSeen = true\n", "		c.block.regularSeen = false\n")
 	mutant("client-fields-dropped", "client-response-shape", "conn.go", "			res.Header.AddBytesKV(hf.KeyBytes(), hf.ValueBytes())\n", "")
@@ -567,7 +567,7 @@ func init() {
 
 func init() {
 	mutant("trailers-must-fit-one-frame-again", "state-table", "serverConn.go", "		// Like any header block the trailers may go on in CONTINUATION frames.\n		// The block is open again until its END_HEADERS, and the request is\n		// not complete, and not dispatched, before that.\n		strm.headersFinished = false\n", "		if !fr.Flags().Has(FlagEndHeaders) {\n			return NewGoAwayError(ProtocolError, \"stream not open\")\n		}\n")
-	mutant("trailer-block-dispatches-before-end-headers", "server-loop-shape", "serverConn.go", "		strm.headersFinished = false\n	}\n\n	if headerFrame, ok", "	}\n\n	if headerFrame, ok")
+	mutant("trailer-block-dispatches-before-end-headers", "server-loop-shape", "serverConn.go", "		strm.headersFinished = false\n\n		// Trailers carry no pseudo-header fields", "		// Trailers carry no pseudo-header fields")
 	mutant("settings-acknowledged-by-the-read-loop", "late-and-graceful-frames", "serverConn.go", "				// must not overtake the INITIAL_WINDOW_SIZE delta.\n				if !sc.forward(fr) {", "				// must not overtake the INITIAL_WINDOW_SIZE delta.\n				sc.handleSettings(st)\n				if !sc.forward(fr) {")
 	mutant("settings-acknowledged-before-the-delta", "late-and-graceful-frames", "serverConn.go", "					st := fr.Body().(*Settings)\n					if st.hasWindowSize {", "					st := fr.Body().(*Settings)\n					sc.handleSettings(st)\n					if st.hasWindowSize {")
 	mutant("peer-goaway-ends-the-read-loop", "late-and-graceful-frames", "serverConn.go", "			if ga.Code() != NoError {\n				err = fmt.Errorf(\"goaway: %s: %s\", ga.Code(), ga.Data())\n			}", "			err = fmt.Errorf(\"goaway: %s: %s\", ga.Code(), ga.Data())")
@@ -968,7 +968,7 @@ func init() {
 }
 
 func init() {
-	mutant("interim-fields-reach-the-response", "client-block-state", "conn.go", "		if c.block.interim {\n			continue\n		}\n\n", "")
+	mutant("interim-fields-reach-the-response", "client-block-state", "conn.go", "		} else if !c.block.interim {\n			res.Header.AddBytesKV", "		} else {\n			res.Header.AddBytesKV")
 	mutant("stream-limit-compared-in-32-bits", "no-stream-after-goaway", "conn.go", "	return int64(atomic.LoadInt32(&c.openStreams)) < int64(atomic.LoadUint32(&c.maxStreams))", "	return atomic.LoadInt32(&c.openStreams) < int32(atomic.LoadUint32(&c.maxStreams))")
 	mutant("complete-request-timed-out-under-its-handler", "stream-birth-and-timeout", "serverConn.go", "				if !strm.responded {\n					due = append(due, strm)\n				}", "				due = append(due, strm)")
 	mutant("timer-armed-for-a-stream-slow-to-answer", "stream-birth-and-timeout", "serverConn.go", "				if strm.origType != FrameHeaders || strm.responded {\n					continue\n				}", "				if strm.origType != FrameHeaders {\n					continue\n				}")
@@ -1032,4 +1032,13 @@ func init() {
 	mutant("detach-forgets-to-swap", "request-ctx-handoff", "serverConn.go", "	tr.CopyTo(&ctx.Response)\n\n	strm.ctx = ctx\n", "	tr.CopyTo(&ctx.Response)\n")
 	mutant("detach-loses-the-timeout-response", "request-ctx-handoff", "serverConn.go", "	tr.CopyTo(&ctx.Response)\n\n	strm.ctx = ctx\n", "	strm.ctx = ctx\n")
 	mutant("server-write-loop-stops-after-a-good-frame", "server-response-encoding", "serverConn.go", "		case fr := <-sc.writer:\n			if send(fr) != nil {\n				return\n			}\n		case <-sc.writeStop:", "		case fr := <-sc.writer:\n			if send(fr) == nil {\n				return\n			}\n		case <-sc.writeStop:")
+}
+
+func init() {
+	mutant("authority-in-trailers-becomes-the-host", "pseudo-headers-once", "serverConn.go", "		strm.regularSeen = true\n	}\n\n	if headerFrame, ok", "	}\n\n	if headerFrame, ok")
+	mutant("status-with-leading-zeros-accepted", "client-response-shape", "conn.go", "			if err != nil || len(hf.ValueBytes()) != 3 || n < 100 || n > 999 {", "			if err != nil || n < 100 || n > 999 {")
+	mutant("interim-content-length-not-checked", "client-block-state", "conn.go", "		if bytes.Equal(hf.KeyBytes(), StringContentLength) {\n			n, err := parseUint(hf.ValueBytes())", "		if c.block.interim {\n			continue\n		}\n\n		if bytes.Equal(hf.KeyBytes(), StringContentLength) {\n			n, err := parseUint(hf.ValueBytes())")
+	mutant("goaway-code-cut-to-31-bits", "small-primitives", "goaway.go", "	ga.code = code\n", "	ga.code = code & (1<<31 - 1)\n")
+	mutant("settings-on-a-stream-taken-for-a-stream-frame", "read-loop-connection-errors", "serverConn.go", "	case FrameSettings, FrameGoAway:\n", "	case FrameGoAway:\n")
+	mutant("stream-window-update-handed-to-the-request", "client-loop-shape", "conn.go", "			c.addWindow(fr.Stream(), int32(fr.Body().(*WindowUpdate).Increment()))\n\n			ReleaseFrameHeader(fr)\n\n			continue\n", "			c.addWindow(fr.Stream(), int32(fr.Body().(*WindowUpdate).Increment()))\n")
 }
